@@ -390,6 +390,21 @@ def statement_programs(tier, rnd):
     ]
     for st in est:
         out.append(spec_single("enum", "enum %s" % (st,), ef, st, [{"h": -2}, {"h": 100}], ENUMS))
+    # enumerators with exactly one gap / two gaps inside their range; more random fields than the swizzler pins in one call;
+    # constraints that exclude every enumerator
+    EG = dict(ENUMS)
+    EG["G1"] = [["Z", 0], ["O", 1], ["T", 2], ["F", 4]]
+    EG["G2"] = [["M", -1], ["Z", 0], ["P", 2]]
+    eg = [["e", "enum", "G1", True], ["g", "enum", "G2", True], fld("a", ("u", 8)), fld("b", ("u", 8)), fld("c", ("u", 8)), fld("d", ("u", 8)), fld("x", ("u", 8))]
+    allg1 = [E(["!=", F("e"), ["enum", "G1", m]]) for m in ("Z", "O", "T", "F")]
+    for st in ([], [E([">=", F("e"), ["enum", "G1", "T"]])], allg1, allg1[:3], [E([">", F("e"), ["enum", "G1", "T"]]), E(["<", F("e"), ["enum", "G1", "F"]])],
+               [E(["<", a, b]), E(["<", b, c]), E(["<", c, d]), E(["<", d, F("x")]), E(["<", F("e"), F("x")]), E(["!=", F("g"), ["enum", "G2", "Z"]])],
+               [E(["==", F("a"), F("e")]), E([">", a, lit(2)])], [E([">", F("g"), ["enum", "G2", "Z"]]), E(["<", F("g"), ["enum", "G2", "P"]])]):
+        out.append(spec_single("enum", "gapped enums %s" % (st,), eg, st, None, EG, calls=("randomize", "randomize", "randomize_with")))
+    # unique over scalars and lists in every operand order
+    ul = [fld("a", ("u", 2)), fld("b", ("u", 2)), ["l", "list", ["u", 2], 2, True, False], ["m", "list", ["u", 2], 2, True, False]]
+    for ops_ in ([a, ["list", ["l"]]], [["list", ["l"]], a], [a, ["list", ["l"]], b], [["list", ["l"]], ["list", ["m"]]], [a, b, ["list", ["m"]]], [["list", ["m"]], a, ["list", ["l"]]]):
+        out.append(spec_single("unique", "unique with list operands %s" % (ops_,), ul, [["unique", ops_]]))
     return out
 
 
@@ -992,6 +1007,19 @@ def c05_programs(tier, sd):
         out.append({"tag": "soft_merge", "desc": "softs across rand sets merged through a list subscript %s" % (body,), "prog": one_class(fl, body),
                     "world": [["top", "obj", "Top"]], "ops": [["randomize", ["top"]], ["randomize_with", ["top"], [S(["==", b, lit(1)])]], ["randomize", ["top"]]],
                     "soft_order_fixed": True})
+    # class-level softs of the objects held in a list, against inline softs, over several calls on the same parent
+    ItemS = {"name": "ItemS", "fields": [fld("x", ("u", 4)), fld("y", ("u", 4))], "blocks": [["ib", "c", [S(["==", F("x"), lit(2)]), E(["<", F("y"), lit(9)])]]]}
+    TopS = {"name": "Top", "fields": [["items", "list", ["obj", "ItemS"], 3, True, False], fld("a", ("u", 4))], "blocks": [["tb", "c", [S(["==", F("a"), lit(1)])]]]}
+    for il in ([S(["==", F("items", 0, "x"), lit(7)])], [S(["==", F("items", 2, "x"), lit(5)]), S(["==", F("a"), lit(3)])], []):
+        out.append({"tag": "soft_list_elems", "desc": "softs of list-element classes vs inline softs %s, repeated calls" % (il,), "prog": {"enums": {}, "classes": [ItemS, TopS]},
+                    "world": [["top", "obj", "Top"]], "soft_order_fixed": True,
+                    "ops": [["randomize_with", ["top"], il]] * 4 + [["randomize", ["top"]], ["randomize_with", ["top"], il]]})
+    # softs inside a dynamic block that an inline block references as a plain statement
+    DS = {"name": "Top", "fields": [fld("a", ("u", 4)), fld("b", ("u", 4))],
+          "blocks": [["cb", "c", [E(["<", a, lit(12)])]], ["ds", "dyn", [S(["==", a, lit(5)]), S(["==", b, lit(9)]), E(["!=", b, lit(0)])]]]}
+    for il in ([E(["dyn", "ds"])], [E(["dyn", "ds"]), S(["==", a, lit(2)])], [S(["==", b, lit(1)]), E(["dyn", "ds"])]):
+        out.append({"tag": "soft_dyn", "desc": "softs of a dynamic block referenced plainly %s" % (il,), "prog": {"enums": {}, "classes": [DS]}, "world": [["top", "obj", "Top"]],
+                    "soft_order_fixed": True, "ops": [["randomize_with", ["top"], il], ["randomize", ["top"]], ["randomize_with", ["top"], il]]})
     # softs in several class blocks (order between blocks not fixed by the property): maximality/guards only
     for body1, body2 in ((bodies[0], [S(["==", a, lit(3)]), S(["==", b, lit(1)])]), (bodies[2], bodies[5]), (bodies[7], bodies[1])):
         pr = one_class(fields, body1, extra_blocks=[["cb1", "c", body2]])
@@ -1253,6 +1281,12 @@ def c08_programs(tier, sd):
                         "ops": [["set", ["top", "s2", "x"], 3], ["set", ["top", "s2", "y"], 9], ["set", ["top", "s2", "arr", 0], 20], ["set", ["top", "s2", "arr", 1], 30],
                                 ["set", ["top", "s2", "arr", 2], 40], ["randomize", ["top"]], ["randomize", ["top"]],
                                 ["randomize_with", ["top"], [E([">", F("s1", "arr", 1), F("s1", "x")])]], ["vsc_randomize", [["top", "s1"]]]]})
+    # sub-objects, lists and fields held in attributes whose names start with a single underscore
+    SubU = {"name": "SubU", "fields": [fld("lo", ("u", 8)), fld("_hi", ("u", 8))], "blocks": [["sb", "c", [E([">", F("lo"), lit(10)]), E(["<", F("lo"), F("_hi")])]]]}
+    TopU = {"name": "Top", "fields": [["_shadow", "obj", "SubU", True], ["pub", "obj", "SubU", True], ["_l", "list", ["u", 8], 2, True, False], fld("_k", ("u", 8)), fld("a", ("u", 8))],
+            "blocks": [["tb", "c", [E(["<", F("_shadow", "lo"), F("pub", "lo")]), E(["==", F("_k"), ["+", F("a"), lit(1)]]), ["foreach", ["_l"], "i", [E([">", ["it", "i"], F("_k")])]]]]]}
+    out.append({"tag": "tree_underscore", "desc": "underscore-named sub-object, list and fields", "prog": {"enums": {}, "classes": [SubU, TopU]}, "world": [["top", "obj", "Top"]],
+                "ops": [["randomize", ["top"]], ["randomize", ["top"]], ["vsc_randomize", [["top", "_shadow"]]], ["randomize_with", ["top"], [E(["<", F("_k"), lit(100)])]]]})
     # a list of objects created with a size: the elements are distinct objects
     for lr in (True, False):
         TopP = {"name": "Top", "fields": [fld("a", ("u", 8)), ["items", "list", ["obj", "Leaf"], 4, lr, False, "presized"]],
